@@ -62,7 +62,7 @@ TraceInit ==
 \* a new run may begin only where the previous one was observed to its end (or at the start)
 TrReset ==
     /\ IsEvent("Reset")
-    /\ l = 1 \/ Trc[l - 1].ev = "Observed"
+    /\ IF l = 1 THEN TRUE ELSE Trc[l - 1].ev = "Observed"
     /\ Ev.nfiles \in 1..MaxFiles /\ ToSet(Ev.requested) \subseteq Kinds /\ ToSet(Ev.requested) # {}
     /\ ResetTo(Ev.nfiles, ToSet(Ev.requested), ToSet(Ev.post))
     /\ l' = l + 1 /\ TLCSet(1, l + 1) /\ blind' = ~Ev.hooks
@@ -124,8 +124,11 @@ TrObserved ==
     /\ printedError' = (Ev.errl > 0)
     /\ out' = [o \in AllOuts |-> ObsOf(o)]
     /\ pendingIo' = NoPending
+    \* without hooks the only evidence of a failed operation is what the harness injected
+    \* itself (strace reports every injection that was really hit)
+    /\ wfail' = IF blind THEN {<<Ev.failed[i][1], Ev.failed[i][2]>> : i \in DOMAIN Ev.failed} ELSE wfail
     /\ UNCHANGED << nfiles, post, requested, file, fstate, rank, phase, errs, io, nfaults, written,
-                    wfail, dying, postDone >>
+                    dying, postDone >>
     /\ Consume
 
 TraceNext == \/ TrReset \/ TrFileStart \/ TrFileEnd \/ TrPhStart \/ TrPhEnd \/ TrMsg \/ TrOpen
